@@ -103,4 +103,26 @@ var props = map[string]Prop{
 		Rule: "programs: rapid-generated grammar programs covering every node type in every child position (parenthesised expressions, unnamed extend/summarize columns, project with/without expression, render with/without properties, nested and chained joins, lets), one in five corrupted by token edits and kept if it still parses; two pruning draws each; soups: every short token sequence (same alphabets/contexts as C08) that parses. Oracle: reflection over exported fields enumerates the node graph; parser.Walk under recover must not panic, never pass a nil node, visit every *Ident and every Expr node (except CallExpr.Func and JoinOperator.Flavor) exactly once by pointer identity, visit nothing twice and nothing outside the tree, visit ancestors first; with a rapid-drawn set of visits answering false the visited set is exactly the full set minus strict descendants of those nodes; the same laws for Walk started at every expression subtree (the compiler's usage). Non-trivial = tree with >= 10 nodes and at least one of {ParenExpr, unnamed extend/summarize column, render property, join, project column without expression, let}; distinct = program shape x pruning draw.",
 		Assumptions: []string{"the set of nodes is what is reachable through exported fields of pointer/interface/slice type implementing parser.Node"},
 	},
+	"C02": {
+		Stages: []Stage{
+			{Name: "sequences", Test: "TestC02Sequences", Shards: [2]int{4, 16}, Checks: [2]int{4, 8}, Timeout: [2]time.Duration{10 * min, 60 * min}},
+			{Name: "random", Test: "TestC02Random", Shards: [2]int{4, 16}, Checks: [2]int{5000, 150000}, SeedOffset: 1, Timeout: [2]time.Duration{10 * min, 60 * min}},
+		},
+		Rule: "sequences: every sequence of the ten non-join operator kinds of length <= 3 (thorough 4), each instantiated with 4 (thorough 8) rapid draws of well-typed arguments (schema threaded through the pipeline; project renames onto existing column names one time in three; later operators use the new names) and of a small database (0-6 rows, 4-value domains, NULLs, duplicate rows); random: sequences up to length 8 with repetition. Oracle: the emitted SQL, parsed by the independent SQL front end and evaluated with list semantics under both name-resolution disciplines (output alias first / source column first; readings that are not valid SQL are dropped), must return the columns (names and order) and rows of the reference interpreter that applies the operators left to right; rows are compared as sequences when a sort determines the final order (ties: accepted only if equal as multisets and ordered consistently with that sort), else as multisets. Non-trivial = a take/top adjacent to sort/where/project/summarize/extend/take/top, or a sort after a name-changing operator, or two sorts or two takes, or an operator after render/as, on a non-empty table with a tie or a NULL; distinct = operator kinds x argument shape.",
+		Assumptions: []string{
+			"a subquery's row order is preserved by an outer SELECT/WHERE and ORDER BY is stable (single-stream ClickHouse behaviour the repository's goldens rely on)",
+			"extend/summarize never reuse an existing column name; unnamed computed columns are compared by position only; take counts are non-negative integers",
+			"values the properties are silent about (=~ with NULL operand, strcat with NULL argument) make a case don't-care (skipped, counted)",
+		},
+	},
+	"C03": {
+		Stages: []Stage{
+			{Name: "joins", Test: "TestC03Joins", Shards: [2]int{6, 16}, Checks: [2]int{3500, 150000}, Timeout: [2]time.Duration{10 * min, 90 * min}},
+		},
+		Rule: "rapid-generated well-typed programs: a left prefix of 0-3 operators, a join, 0-3 further operators (more joins allowed); every join kind (absent, innerunique, inner, leftouter); conditions: bare key, $left.a == $right.b in both orientations, extra equalities, non-equi comparisons, one-sided predicates, and/or combinations; right-hand pipelines of 0-3 operators with joins nested to depth 2 (thorough 3); right-hand sides that read an earlier `as` name; databases of three tables with overlapping key domains, duplicate rows, unmatched rows, NULL keys. Oracle as C02 (rows as multisets unless a later sort determines the order) against the reference join semantics of the C03 statement. Non-trivial = at least one join on a database that distinguishes the kinds (duplicate left rows, unmatched or NULL keys) and ((non-empty prefix and multi-operator right side) or nested join or >= 2 joins); distinct = program shape.",
+		Assumptions: []string{
+			"as C02; unqualified column references after a join are only generated for names that occur on one side",
+			"`==` between $left and $right terms is only generated as a top-level (AND-ed) condition: there pql's plain `=` and a NULL-safe equality select the same pairs",
+		},
+	},
 }
